@@ -16,7 +16,11 @@ def union_copy_shortcut_wrong_member(v):
     value that belongs to a later container member of another kind; the elements stay
     unconverted."""
     f = v.get("facts", {})
-    return bool(f.get("union_copy_shortcut")) and f.get("encoded_only_basic") is False
+    if bool(f.get("union_copy_shortcut")) and f.get("encoded_only_basic") is False:
+        return True
+    # general form of the same mechanism (C11): the union serializer takes the first member, in declaration
+    # order, whose packer does not raise; a non-basic member declared before the value's own member got the value
+    return bool(f.get("earlier_nonscalar_member_before_value_member")) and v.get("sig", "").startswith("encode:")
 
 
 @predicate
